@@ -799,6 +799,41 @@ def replay_history(ctx, ops, tag):
     return outs
 
 
+def canon_dump(nodes):
+    """HDF5-level dump with the order of an ENTITY's own children normalised (sorted by link name) and
+    nodes renumbered by the resulting DFS.  The order in which an entity's container groups / role
+    links were first created is not observable through the API (they are addressed by name) and
+    differs after a refused create_feature, which leaves an empty `features` group behind in the
+    file; the order of the entries INSIDE containers, link lists and `dimensions` stays as it is."""
+    if not isinstance(nodes, list):
+        return nodes
+    by = {n["n"]: n for n in nodes}
+    order = {}
+    out = []
+
+    def visit(k):
+        if k in order:
+            return order[k]
+        order[k] = len(order)
+        n = by[k]
+        links = list(n["links"])
+        if k == 0 or "entity_id" in n["attrs"]:
+            links.sort(key=lambda l: l[0])
+        rec = {"n": order[k], "kind": n["kind"], "attrs": n["attrs"], "links": None}
+        out.append(rec)
+        rec["links"] = [[nm, visit(t)] for nm, t in links]
+        return order[k]
+
+    if 0 in by:
+        visit(0)
+    return out
+
+
+def _canon_dumps(ops, outs):
+    return [({"ok": canon_dump(o["ok"])} if op == ["dump"] and isinstance(o, dict) and "ok" in o else o)
+            for op, o in zip(ops, outs)]
+
+
 def correspondence(ctx):
     n_hist = ctx.budget(30, 260)
     steps = ctx.budget(45, 70)
@@ -809,9 +844,9 @@ def correspondence(ctx):
     samples = []
     # corpus first: one history per case
     for ci, hist in enumerate(core.load_corpus(PROP)):
-        outs = replay_history(ctx, hist, str(ci))
         mops = [["noop"] if op == ["reopen"] else op for op in hist]
-        model = core.run_driver(PROP, [["reset"]] + mops)[1:]
+        outs = _canon_dumps(mops, replay_history(ctx, hist, str(ci)))
+        model = _canon_dumps(mops, core.run_driver(PROP, [["reset"]] + mops)[1:])
         for k, op, m, i in storegen.compare(mops, outs, model):
             disagreements.append(Disagreement({"corpus": ci, "index": k, "op": op, "prefix": hist[:k + 1]}, m, i))
         total += len(hist)
@@ -819,7 +854,8 @@ def correspondence(ctx):
         rng = random.Random("%s/%d/%d" % (PROP, ctx.seed, h))
         profile = ["links", "dims", "links"][h % 3]
         ops, outs, tg = run_history(ctx, rng, steps, profile, str(h))
-        model = core.run_driver(PROP, [["reset"]] + ops)[1:]
+        outs = _canon_dumps(ops, outs)
+        model = _canon_dumps(ops, core.run_driver(PROP, [["reset"]] + ops)[1:])
         for k, op, m, i in storegen.compare(ops, outs, model):
             disagreements.append(Disagreement({"history": h, "index": k, "op": op,
                                                "prefix": ops[:k + 1] if k < 400 else None}, m, i))
